@@ -21,13 +21,15 @@ def bounds(tier):
 
 
 def mk(variants, started=None, ended=None, edstart='present', pre_op=False, T=60, tag='', dmax=100000, resend=None,
-       blank_id=None, example=None):
+       blank_id=None, example=None, unique=True):
     N = len(variants)
     P = {'N': N, 'variants': list(variants), 'started': started, 'ended': ended, 'edstart': edstart,
          'pre_op': pre_op, 'resend': resend, 'blank_id': blank_id}
     sym = [('s%d' % i, 'str') for i in range(N)]
     strs = [n for n, _ in sym]
-    pre = str_pre(strs) + distinct(strs)
+    # story IDs need not be unique (roStoryAppend does not de-duplicate): in the 'dup-ids' cells the solver may
+    # make them coincide, and every relation is about positions, not IDs
+    pre = str_pre(strs) + (distinct(strs) if unique else [])
     for i, v in enumerate(variants):
         has = VARIANTS[v]
         for flag, name in zip(has, ('sd', 'tt', 'mt')):
@@ -51,6 +53,8 @@ def mk(variants, started=None, ended=None, edstart='present', pre_op=False, T=60
         cid += '/' + tag
     if blank_id is not None:
         cid += '/blank-storyID-%d' % blank_id
+    if not unique:
+        cid += '/dup-ids'
     # concrete anchors use FRACTIONAL durations (the symbolic run uses exact integers, stub S3): the real float()
     # parsing of "12.5"-style texts is exercised here
     ex = example
@@ -100,6 +104,9 @@ def cells(tier):
     out.append(mk(['SD', 'TT+MT', 'SD'], blank_id=1, T=T, dmax=10000))
     out.append(mk(['SD', 'MT'], blank_id=1, T=T))
     out.append(mk(['TT', 'SD'], blank_id=0, edstart='absent', T=T))
+    out.append(mk(['SD', 'TT+MT'], unique=False, T=T))
+    out.append(mk(['SD', 'MT', 'TT'], unique=False, T=T, dmax=10000))
+    out.append(mk(['SD', 'SD'], unique=False, edstart='absent', started=[1, None], T=T))
     # after a reordering merge the relations hold again
     out.append(mk(['SD', 'TT+MT', 'SD+TT+MT'], pre_op=True, T=T, dmax=100000 if tier == 'thorough' else 10000))
     out.append(mk(['SD', 'MT'], pre_op=True, started=[1, None], T=T))
